@@ -215,7 +215,7 @@ func (t *traverser) start() {
 		}
 		if t.budget != nil {
 			t.budget.LinkBudget--
-			if t.budget.LinkBudget <= 0 {
+			if t.budget.LinkBudget < 0 {
 				t.writeDone(&traversal.ErrBudgetExceeded{BudgetKind: "link", Link: t.root})
 				return
 			}
